@@ -1,5 +1,6 @@
 """C02 — Nothing lost, nothing duplicated: the operation listing is complete, causal and stable."""
 import random
+import warnings
 from typing import Any, Dict, List
 
 from qv import bp, gen, model as M, snap, memo_shadow, contracts
@@ -19,7 +20,7 @@ META = {
         "graph invariants read the private pointer lists of CircuitGraphBranch (hook at the mutator, not an API observation)",
     ],
     "floors": {
-        "quick": {"late_add_listings": 2500, "late_add_through_nested_handle": 500, "listings_checked": 4000, "graph_invariant": 30000, "add_to_graph_post": 30000, "causality_pairs": 20000, "blocks_contiguity": 1500, "chain_length": 1000},
+        "quick": {"late_add_listings": 2500, "dangling_relation_adds": 8000, "late_add_through_nested_handle": 500, "listings_checked": 4000, "graph_invariant": 30000, "add_to_graph_post": 30000, "causality_pairs": 20000, "blocks_contiguity": 1500, "chain_length": 1000},
         "thorough": {"listings_checked": 40000, "graph_invariant": 300000, "causality_pairs": 200000, "blocks_contiguity": 15000},
     },
 }
@@ -173,6 +174,36 @@ def check_program(prog: Dict[str, Any], acc: Acc, flags=None):
                 acc.finding("listing/late-add-missing", f"an operation added ({how}) after the listing was read is not (exactly once) in the next listing", case,
                             {"only_listing": only_a[:4], "only_expected": only_b[:4]})
                 break
+        # ---- relations whose reference is not a member of the circuit that is added to (documented: such a relation is ignored, with
+        #      a warning): reference inside an already nested sub-circuit, reference never added, reference added only later.
+        #      Wherever the operation ends up, it is never listed before (or without) the operation its relation refers to.
+        from qce_circuit.structure.intrf_circuit_operation import RelationLink, RelationType
+        from qce_circuit.structure.circuit_operations import Rx90, Ry180
+        listed_now = circuit0.operations
+        direct = {id(h) for h in built.top.handles}
+        nested_leaf = next((o for o in listed_now if id(o) not in direct), None)
+        never_added = Ry180(0)
+        later = Ry180(1)
+        dangling = []
+        for qubit, ref in ((11, nested_leaf), (12, never_added), (0, never_added), (13, later)):
+            if ref is None:
+                continue
+            new_op = Rx90(qubit, relation=RelationLink(ref, RelationType.FOLLOWED_BY))
+            with warnings.catch_warnings():
+                warnings.simplefilter("ignore")
+                circuit0.add(new_op)
+            dangling.append(new_op)
+        circuit0.add(later)
+        listed2 = circuit0.operations
+        pos = {id(o): k for k, o in enumerate(listed2)}
+        for new_op in dangling:
+            acc.count("dangling_relation_adds")
+            li = snap.link_info(new_op)
+            if id(new_op) not in pos:
+                acc.finding("listing/late-add-missing", "an operation added with a relation to a non-member operation is missing from the listing", case, None)
+            elif li["kind"] == "single" and li["ref"] is not None and not snap.is_composite(li["ref"]) and pos.get(id(li["ref"]), len(listed2)) >= pos[id(new_op)]:
+                acc.finding("listing/causality-dangling", "an operation added with a relation to a non-member operation is listed before (or without) the operation its relation still refers to",
+                            case, {"pos": pos[id(new_op)], "ref_pos": pos.get(id(li["ref"]))})
         # and once more after unrolling a fresh instance (listing of the unrolled circuit)
         built2 = bp.build(prog, bp.Ctx(prog.get("settings")))
         top_reps = M.reps_of(M.MNode(is_block=True, reps=prog["circuit"].get("reps", 1)), ctx.S)
